@@ -87,7 +87,9 @@ Holds(e, name) == name \in DOMAIN e.ids /\ FLe(e.ids[name][1], e.ids[name][2])
 NonsymOK(e) ==
   /\ e.interior_accepted                 \* generated interior points are recognised as interior
   /\ e.scaled_ok                         \* ... and can be scaled
-  /\ \A name \in Required(e.cone) : Holds(e, name)
+  \* (next to the boundary of K the finite-difference reference for the primal gradient is not meaningful; the
+  \*  conjugate map, which needs no reference, still has to close there)
+  /\ \A name \in Required(e.cone) \ (IF e.family = "near_boundary" THEN {"primal_grad_is_derivative"} ELSE {}) : Holds(e, name)
   /\ e.pd_mode \in {"secant", "fallback"}
   /\ (e.cone = "GenPow") => e.pd_mode = "fallback"
 
